@@ -35,6 +35,7 @@ TYPES = ['p2pkh', 'p2sh', 'p2wpkh', 'p2wsh', 'p2tr']
 PLEN = {'p2pkh': 20, 'p2sh': 20, 'p2wpkh': 20, 'p2wsh': 32, 'p2tr': 32}
 FWD_ROUTES = ['address', 'address_obj', 'address_parsed', 'public_hash', 'lock_script']
 KEY_ROUTES = ['hdkey', 'hdkey_public', 'hdkey_address_obj', 'key_address_obj', 'public_key']
+PRES = ['p2wpkh', 'p2pkh', 'p2sh_p2wpkh', 'uncompressed', 'address_obj']
 PARSE_APIS = ['output_parse', 'tx_parse', 'tx_parse_witness_form', 'tx_parse_hex', 'tx_parse_hex_witness_form',
               'tx_parse_bytesio', 'tx_parse_bytesio_witness_form']
 HEXCHARS = frozenset(b'0123456789abcdefABCDEF')
@@ -164,6 +165,22 @@ def check_fwd(ctx, case):
                     k = k.public()
                 if route == 'hdkey_address_obj':
                     return _make_output(api, net, address=k.address_obj)
+                # the key object may have been asked for one of its other address forms before (a display of the
+                # legacy / nested / native form): the output made from the KEY is that of the key's own witness type
+                pre = case.get('pre')
+                try:
+                    if pre == 'p2wpkh':
+                        k.address(encoding='bech32', script_type='p2wpkh')
+                    elif pre == 'p2pkh':
+                        k.address(encoding='base58', script_type='p2pkh')
+                    elif pre == 'p2sh_p2wpkh':
+                        k.address(encoding='base58', script_type='p2sh_p2wpkh')
+                    elif pre == 'uncompressed':
+                        k.address(compressed=False, encoding='base58', script_type='p2pkh')
+                    elif pre == 'address_obj':
+                        k.address_obj
+                except Exception:
+                    pass
                 return _make_output(api, net, address=k)
         else:
             def build():
@@ -468,6 +485,11 @@ def matrix_items():
                     for api in ('Output', 'add_output'):
                         items.append(('fwd.' + route, {'kind': 'fwd', 'route': route, 'api': api, 'net': net,
                                                        'type': kind, 'sec': '%064x' % sec}))
+                        if route in ('hdkey', 'hdkey_public') and si == 0:
+                            for pre in PRES:
+                                items.append(('fwd.%s.after_other_address' % route,
+                                              {'kind': 'fwd', 'route': route, 'api': api, 'net': net, 'type': kind,
+                                               'sec': '%064x' % sec, 'pre': pre}))
             for kind in ('p2pkh', 'p2wpkh'):
                 for api in ('Output', 'add_output'):
                     items.append(('fwd.public_key', {'kind': 'fwd', 'route': 'public_key', 'api': api, 'net': net,
@@ -553,7 +575,8 @@ def run(ctx):
         'kind': st.just('fwd'), 'route': st.sampled_from(['hdkey', 'hdkey_public', 'hdkey_address_obj', 'key_address_obj', 'public_key']),
         'api': st.sampled_from(['Output', 'add_output']), 'net': gen.networks(),
         'type': st.sampled_from(['p2pkh', 'p2wpkh', 'p2sh_p2wpkh']),
-        'sec': gen.secrets().map(lambda d: '%064x' % d), 'pk_as': st.sampled_from(['bytes', 'hex'])}).map(
+        'sec': gen.secrets().map(lambda d: '%064x' % d), 'pk_as': st.sampled_from(['bytes', 'hex']),
+        'pre': st.sampled_from([None, None] + PRES)}).map(
         lambda c: dict(c, type='p2wpkh') if c['route'] == 'public_key' and c['type'] == 'p2sh_p2wpkh' else c)
     wit = st.fixed_dictionaries({
         'kind': st.just('wit'), 'net': gen.networks(), 'witver': st.integers(0, 16),
